@@ -18,6 +18,11 @@ RULE = ("auth (L1): the real handlers obtained from the app's MsgServiceRouter (
         "in upper case (2/8) or by a string that is no address (1/8) - so roles get granted under one spelling and removed under another; the Signer field (1 message in 5) and the other "
         "address-typed payload fields (WhitelistedAddress, CethReceiverAccount, CosmosReceiver, Validator; 1 in 4) use the upper-case form; directed histories grant/use/remove/use in lower case, "
         "in upper case, and grant-lower/remove-upper/use/remove-lower/use. "
+        "Dropped state branches (1 iteration in 4, both families): a transaction by an ADMIN (sometimes by anybody) [AddAccount or RemoveAccount(role, account); SetParams (a role lookup); optionally a "
+        "lookup for another role; a message that fails behind the guard] which fails as a whole, or the same messages merely simulated (L1: a CacheContext never written; L2: app.Simulate with a "
+        "signature forged by a stranger) - then, in a later transaction, a message of that account to a handler asking for that role. The model is exact: a failed or simulated transaction changes nothing. "
+        "Every single-message line also carries what the RAW key/value pairs of the admin, oracle and clp stores say the signer holds (chk c08.stored: accepted => held as stored); "
+        "failed multi-message transactions at L2 carry the multistore hash (chk c08.txatomic). "
         "After every accepted RemoveAccount the real IsAdminAccount is asked whether the decoded account still holds the role (chk c08.removed). "
         "non-trivial = distinct (handler, signer, payload) message line.")
 TRUSTED_BASE = [
